@@ -279,6 +279,19 @@ func TestVerifC15(t *testing.T) {
 			{"valid-gzip-empty-object", func(o []byte, p string) { os.WriteFile(p, gz([]byte("{}")), 0644) }},
 			{"valid-gzip-garbage", func(o []byte, p string) { os.WriteFile(p, gz([]byte("not json at all")), 0644) }},
 			{"plain-json-beside-gz", func(o []byte, p string) { os.WriteFile(strings.TrimSuffix(p, ".gz"), ungz(o), 0644) }},
+			{"stale-plain-json-beside-gz", func(o []byte, p string) {
+				// a left-over uncompressed file of an older, shorter version of the representation (valid and contiguous: its last
+				// segment is missing); the fresh .gz is the one that counts
+				js := string(ungz(o))
+				if i := strings.Index(js, `"segments":[`); i > 0 {
+					if j := strings.Index(js[i:], "]"); j > 0 {
+						if k := strings.LastIndex(js[i:i+j], "},{"); k > 0 {
+							js = js[:i+k+1] + js[i+j:]
+							os.WriteFile(strings.TrimSuffix(p, ".gz"), []byte(js), 0644)
+						}
+					}
+				}
+			}},
 			{"middle-segment-dropped-from-json", func(o []byte, p string) {
 				// detectably corrupt: the table is no longer contiguous (needs >= 3 segments; otherwise the file is left intact)
 				js := string(ungz(o))
